@@ -147,6 +147,37 @@ def rule_impl(chk, rel, cls, fn):
                    detail_ok='all n_cells chains of array %s' % idxname)
 
 
+def rule_tree_count(chk):
+    """the trees hand out `num_particles` ids: that count is the live particle count of the wrapped array, recorded by the same call that fills the id table"""
+    rel = 'pysph/base/octree.pyx'
+    t = M.cy(rel)
+    n = 0
+    for cls in M.classes(t):
+        for name, fn in M.methods(cls).items():
+            if 'pa_wrapper' not in M.arg_names(fn):
+                continue
+            fills = [a for a in ast.walk(fn) if isinstance(a, ast.Assign) and compact(a.targets[0]) == 'self.pids']
+            if not fills:
+                continue
+            who = '%s.%s' % (cls.name, name)
+            n += 1
+            ws = [a for a in ast.walk(fn) if isinstance(a, ast.Assign) and compact(a.targets[0]) == 'self.num_particles']
+            ok = bool(ws)
+            for a in ws:
+                v = a.value
+                if isinstance(v, ast.Name):
+                    v = resolve_local(fn, v.id)
+                ok = ok and v is not None and compact(v) == 'pa_wrapper.get_number_of_particles()'
+            g = C.build_cfg(fn)
+            wn = [g.node_of(a) for a in ws]
+            ok = ok and all(x is not None for x in wn) and g.must_pass(g.entry, g.exit, wn)
+            chk.decide(ok, 'ordered-indices', who + ':count-is-live', node=ws[0] if ws else fn, file=rel, func=who,
+                       detail_bad='the number of ids the tree hands out (self.num_particles) is %s, not pa_wrapper.get_number_of_particles() recorded on every path of the build: '
+                                  'the serial builder leaves the root\'s own counter at 0, so re-ordering gets an empty or short index list'
+                                  % ([compact(a.value) for a in ws] or 'never set'), detail_ok='self.num_particles = pa_wrapper.get_number_of_particles()')
+    chk.floor('tree builders that fill the id table', n, 2)
+
+
 def rule_apply(chk):
     t = M.cy(NB)
     fn = M.find_method(t, 'NNPS', 'spatially_order_particles')
@@ -233,6 +264,7 @@ def main(chk):
     chk.floor('implementations of get_spatially_ordered_indices', n, 5)
     chk.unit('files', files + [NB, SOL])
     rule_apply(chk)
+    rule_tree_count(chk)
     chk.assume('that head/next, pid and key tables hold each particle exactly once is not decided (see C01)')
 
 
